@@ -307,5 +307,52 @@ def main(argv):
                 ctx.disagreement("reference server (harness) differs from the Lean server model", {"history": hist_desc, "line": fl[:200], "refserver": fw[:200], "lean": fo[:200]},
                                  theorem="(harness) refserver.py vs Server.feed")
                 break
+    # ---- what is found is what a plain map would hold - also when the values carry serializer flags (one set_many with values of different kinds), when they
+    #      end in CR, and however the reply is cut into pieces (every single cut of every fetch reply) ---------------------------------------------------
+    from pymemcache import serde as serde_mod
+    from pymemcache.client.base import PooledClient as Pooled_
+    mixed_sets = [[("a", "text"), ("b", b"more"), ("c", 5), ("d", {"k": [1]}), ("e", b"")], [("c", 5), ("b", b"more"), ("a", "text")], [("d", {"k": [1]}), ("b", b"raw"), ("e", None), ("f", b"z")],
+                  [("b", b"raw"), ("a", "text"), ("b2", b"more")], [("t", True), ("b", b"bytes after a bool"), ("n", 10 ** 30), ("s", "x")]]
+    for kind_ in ("Client", "Pooled"):
+        for sd_name, sd_ in (("pickle", serde_mod.pickle_serde), ("compressed", serde_mod.compressed_serde)):
+            for ms in mixed_sets:
+                srv_ = RefServer()
+                world_ = World(server=lambda conn, data, _s=srv_: [_s.feed(conn.id, data)])
+                world_.tag = 0
+                kw_ = dict(socket_module=FakeSocketModule(world_), serde=sd_, default_noreply=False)
+                c_ = Client(("h", 1), **kw_) if kind_ == "Client" else Pooled_(("h", 1), max_pool_size=1, **kw_)
+                ctx.case(("mixed-set_many", kind_, sd_name, repr(ms)))
+                ctx.count("set_many with values of different kinds")
+                case = {"class": kind_, "serde": sd_name, "set_many": repr(ms)[:120]}
+                try:
+                    failed_ = c_.set_many(dict(ms))
+                    found = {k_: c_.get(k_) for k_, _ in ms}
+                    found_many = c_.get_many([k_ for k_, _ in ms])
+                except Exception as e:
+                    ctx.violation("a store or fetch raised on a healthy server", dict(case, error=repr(e)[:100]), tags=["mixed-set_many"])
+                    continue
+                want_ = dict(ms)
+                if failed_ or any(found[k_] != v_ or type(found[k_]) is not type(v_) for k_, v_ in want_.items()) or found_many != want_:
+                    ctx.violation("the items found after set_many are not those a plain map would hold", dict(case, failed=repr(failed_), found=repr(found)[:160]), tags=["mixed-set_many"])
+    cr_values = [b"abc\r", b"\r", b"\r\r", b"line\r\n\r", b"x" * 30 + b"\r", b"no cr", b""]
+    for v_ in cr_values:
+        for fetch in ("get", "gets", "get_many", "gat"):
+            srv_ = RefServer()
+            srv_.feed(0, b"set k 0 0 %d\r\n" % len(v_) + v_ + b"\r\n")
+            cmd = {"get": b"get k\r\n", "gets": b"gets k\r\n", "get_many": b"get k zz\r\n", "gat": b"gat 100 k\r\n"}[fetch]
+            reply_len = len(RefServer.feed(srv_, 1, cmd))
+            for cut in range(1, reply_len):
+                world_ = World(server=lambda conn, data, _s=srv_, _c=cut: (lambda r_: [r_[:_c], r_[_c:]] if len(r_) > _c else [r_])(_s.feed(conn.id, data)))
+                world_.tag = 0
+                c_ = Client(("h", 1), socket_module=FakeSocketModule(world_), default_noreply=False)
+                ctx.case(("cr-values", repr(v_), fetch, cut))
+                ctx.count("values ending in CR x every cut of the reply")
+                try:
+                    got_ = c_.get("k") if fetch == "get" else c_.gets("k")[0] if fetch == "gets" else c_.get_many(["k", "zz"]).get("k") if fetch == "get_many" else c_.gat("k", 100)
+                except Exception as e:
+                    got_ = e
+                if got_ != v_:
+                    ctx.violation("the value found is not the value stored", {"value": repr(v_), "fetched_with": fetch, "reply_cut_after_byte": cut, "got": repr(got_)[:80]}, tags=["cr-values"])
+                    break
     ctx.assumptions = ["faithful memcached = AbsMap (no eviction, no size limits, decr does not pad)", "time is in whole seconds and constant during a call"]
     ctx.finish()
